@@ -630,3 +630,75 @@ func ruleWEBencode(w *World, r *Report) {
 	}
 	r.Cond(streams == 0, "WEB-encode", "writeHTTPResponse:no-encoder-on-the-response-writer", w.Pos(fi.Decl.Pos()), "the payload is not streamed into the ResponseWriter", "writeHTTPResponse encodes straight into the ResponseWriter: an encoding error surfaces after the status line is out")
 }
+
+// ---------------------------------------------------------------------------------------------------------------
+// GRD-eagerframe: the frame reader does not allocate what a length field promises before the bytes are there.
+// Recovery tries every 0xA5 byte of a damaged region as a frame header. A quarter of all garbage length fields is below
+// the 1 GiB cap; allocating (and zeroing) each before the read fails makes the cost of one flipped bit proportional to
+// the damaged frame's size times half a gigabyte.
+// ---------------------------------------------------------------------------------------------------------------
+func ruleGRDeagerframe(w *World, r *Report) {
+	r.Doc("GRD-eagerframe", "in persistence.ReadFrame and the helpers extracted from it every make([]byte, n) whose size comes from the frame header lies behind a comparison of that size with a constant of at most 1 MiB (larger payloads are read into a buffer that grows with the bytes that arrive): a candidate header inside a damaged region costs at most that constant, so the allocations of a recovery are bounded by the size of the file, not by what garbage length fields promise", 1)
+	fi := w.Func("pkg/persistence", "ReadFrame")
+	if fi == nil {
+		r.Und("GRD-eagerframe", "anchor:ReadFrame", "", "anchor lost")
+		return
+	}
+	top := w.SSAFunc(fi.Obj)
+	n := 0
+	for _, f := range append(append([]*ssa.Function{top}, closuresOf(top)...), w.extractedHelpers(top)...) {
+		for _, b := range f.Blocks {
+			for _, in := range b.Instrs {
+				ms, ok := in.(*ssa.MakeSlice)
+				if !ok {
+					continue
+				}
+				if _, isConst := stripConv(ms.Len).(*ssa.Const); isConst {
+					continue // the header buffer
+				}
+				n++
+				// a dominating comparison of the size (or of what it was converted from) with a small constant
+				small := false
+				cands := []ssa.Value{ms.Len, stripConv(ms.Len)}
+				for _, cv := range cands {
+					if cv.Referrers() == nil {
+						continue
+					}
+					for _, ref := range *cv.Referrers() {
+						bo, ok := ref.(*ssa.BinOp)
+						if !ok {
+							continue
+						}
+						var k int64
+						var okK, onTrue bool
+						if c, isC := constInt(bo.Y); isC && bo.X == cv {
+							k, okK = c, true
+							onTrue = bo.Op == token.LEQ || bo.Op == token.LSS
+							if bo.Op != token.LEQ && bo.Op != token.LSS && bo.Op != token.GTR && bo.Op != token.GEQ {
+								okK = false
+							}
+						}
+						if !okK || k > 1<<20 {
+							continue
+						}
+						iff, isIf := firstIf(bo)
+						if !isIf {
+							continue
+						}
+						succ := iff.Block().Succs[1]
+						if onTrue {
+							succ = iff.Block().Succs[0]
+						}
+						if len(succ.Preds) == 1 && (succ == ms.Block() || succ.Dominates(ms.Block())) {
+							small = true
+						}
+					}
+				}
+				r.Cond(small, "GRD-eagerframe", fmt.Sprintf("%s:make#%d:small-or-grown", shortFn(f), n), w.Pos(ms.Pos()), "the eager allocation is bounded by a constant of at most 1 MiB", shortFn(f)+" allocates the payload buffer from the frame's length field before the bytes have been read, bounded only by the payload maximum: the forward scan of a damaged region tries every 0xA5 byte as a header, so one flipped bit in a 256 KiB record costs about a thousand allocations of half a gigabyte each — tens of seconds and gigabytes of heap at the next start, an OOM kill on a small machine")
+			}
+		}
+	}
+	if n == 0 {
+		r.Ok("GRD-eagerframe", "ReadFrame:make:small-or-grown", w.Pos(fi.Decl.Pos()), "no buffer is sized by the length field ahead of the read")
+	}
+}
